@@ -9,9 +9,9 @@
     fix: commit) says which displacement rule the tree is expected to have: QuotCentralRel (the
     snapshot; C18_zero_state_refuted describes the tree) or QuotCentralRelAbs0 (after
     fixes/C18-zero-state.diff; the C18_zero_state_repaired_* theorems describe the tree). *)
-From Coq Require Import QArith List NArith Bool Reals.
+From Coq Require Import QArith Qabs List NArith Bool Reals.
 From MxlBase Require Import ListX.
-From Mca Require Import Mca GenMcaFacts ExpectedFacts McaAlgebra McaZero McaRestore McaSchedule McaPowerLaw McaMoebius McaEndToEnd.
+From Mca Require Import Mca GenMcaFacts ExpectedFacts McaAlgebra McaZero McaTiny McaRestore McaSchedule McaPowerLaw McaMoebius McaEndToEnd.
 Import ListNotations.
 Open Scope Q_scope.
 
@@ -318,6 +318,85 @@ Theorem C18_zero_state_repaired_witness :
      = Some true.
 Proof. exact abs0_witness. Qed.
 Print Assumptions C18_zero_state_repaired_witness.
+
+(** ---- tiny but non-zero values (3rd pass) --------------------------------------------------- *)
+
+(** The rule of the tree (whatever [C18_facts_pinned] pins), the two points the rule itself picks,
+    EVERY non-zero value x -- no lower limit on |x|, a nanomolar concentration is displaced relative
+    to its own value --, every order, scaled and unscaled: the cell is the kinetic order n resp. the
+    partial derivative n c x^(n-1) up to the relative truncation error e in [0, 2^n d^2].  This is the
+    bound the oracle applies to the stream of values 2^-11 .. 2^-40. *)
+Theorem C18_every_nonzero_value_relative :
+  forall (c x d : Q) (n : nat) (normalized : bool),
+    ~ x == 0 -> ~ d == 0 -> d * d <= 1 -> (normalized = true -> ~ c == 0) ->
+    let q := f_quot gen_mca_facts in
+    exists v e,
+      coef_cell_q q (c * qpow (disp_up q x d) n) (c * qpow (disp_lo q x d) n) (c * qpow x n) x d normalized = Some v
+      /\ 0 <= e /\ e <= qpow 2 n * (d * d)
+      /\ v == (if normalized then qnat n + e else c * qpow x (pred n) * (qnat n + e)).
+Proof. exact (rule_cell_any_nonzero (f_quot gen_mca_facts)). Qed.
+Print Assumptions C18_every_nonzero_value_relative.
+
+(** ... in particular the scaled coefficient is scale free: the same at any two non-zero values
+    (and any two non-zero constants) *)
+Theorem C18_scaled_coefficient_scale_free :
+  forall (c c' x x' d : Q) (n : nat),
+    ~ x == 0 -> ~ x' == 0 -> ~ d == 0 -> ~ c == 0 -> ~ c' == 0 ->
+    let q := f_quot gen_mca_facts in
+    exists v v',
+      coef_cell_q q (c * qpow (disp_up q x d) n) (c * qpow (disp_lo q x d) n) (c * qpow x n) x d true = Some v
+      /\ coef_cell_q q (c' * qpow (disp_up q x' d) n) (c' * qpow (disp_lo q x' d) n) (c' * qpow x' n) x' d true = Some v'
+      /\ v == v'.
+Proof. exact (rule_cell_scale_free (f_quot gen_mca_facts)). Qed.
+Print Assumptions C18_scaled_coefficient_scale_free.
+
+(** REGRESSION (shape of seeded C18-4): a helper that tests  math.isclose(value, 0.0, abs_tol=tol)
+    instead of  value == 0  ([coef_cell_tol] / [disp_up_tol] / [disp_lo_tol]; |value| <= tol).
+    (i)   tolerance 0 IS the helper of the tree; outside the tolerance it is the relative rule;
+    (ii)  within the tolerance the unscaled cell of c v^n is the slope of the secant through 0 +- d,
+          c * zdiff n d^2, WHATEVER the value -- right for order 1 (= c; why mass-action suites are blind);
+    (iii) for every even order 2k >= 2 and every NON-ZERO value within the tolerance the unscaled and
+          the scaled cell are 0 although the partial derivative 2k c x^(2k-1) is not 0 and the kinetic
+          order is 2k >= 1 -- "elasticities equal the partial derivatives at the given state" fails --
+          while the helper of the tree returns w >= 2k there;
+    (iv)  the seeded change's example v = 3 S^2 at S = 2e-9, tolerance 1e-8, displacement 1e-4:
+          0 and 0 instead of 2 and 12e-9 (which the tree's helper returns exactly). *)
+Theorem C18_tolerance_zero_test_refuted :
+  (forall up lo base x d nrm,
+      disp_up_tol 0 x d = disp_up QuotCentralRelAbs0 x d
+      /\ disp_lo_tol 0 x d = disp_lo QuotCentralRelAbs0 x d
+      /\ coef_cell_tol 0 up lo base x d nrm = coef_cell_q QuotCentralRelAbs0 up lo base x d nrm)
+  /\ (forall tol up lo base x d nrm, tol < Qabs x -> 0 <= tol ->
+        disp_up_tol tol x d = x * (1 + d) /\ disp_lo_tol tol x d = x * (1 - d)
+        /\ coef_cell_tol tol up lo base x d nrm = coef_cell up lo base x d nrm)
+  /\ (forall tol c x d n base, Qabs x <= tol -> ~ d == 0 ->
+        exists v,
+          coef_cell_tol tol (c * qpow (disp_up_tol tol x d) n) (c * qpow (disp_lo_tol tol x d) n) base x d false = Some v
+          /\ v == c * zdiff n (d * d) /\ (n = 1%nat -> v == c))
+  /\ (forall tol c x d k,
+        ~ x == 0 -> Qabs x <= tol -> ~ c == 0 -> ~ d == 0 -> d * d <= 1 -> (1 <= k)%nat ->
+        let n := (2 * k)%nat in
+        (exists v, coef_cell_tol tol (c * qpow (disp_up_tol tol x d) n) (c * qpow (disp_lo_tol tol x d) n)
+                     (c * qpow x n) x d false = Some v /\ v == 0)
+        /\ (exists v, coef_cell_tol tol (c * qpow (disp_up_tol tol x d) n) (c * qpow (disp_lo_tol tol x d) n)
+                        (c * qpow x n) x d true = Some v /\ v == 0)
+        /\ ~ c * qnat n * qpow x (pred n) == 0
+        /\ 1 <= qnat n
+        /\ (exists w, coef_cell_q QuotCentralRelAbs0
+                        (c * qpow (disp_up QuotCentralRelAbs0 x d) n) (c * qpow (disp_lo QuotCentralRelAbs0 x d) n)
+                        (c * qpow x n) x d true = Some w /\ qnat n <= w))
+  /\ (let c := 3 in let x := 2 # 1000000000 in let d := 1 # 10000 in let tol := 1 # 100000000 in
+      let cell_t nrm := coef_cell_tol tol (c * qpow (disp_up_tol tol x d) 2) (c * qpow (disp_lo_tol tol x d) 2)
+                          (c * qpow x 2) x d nrm in
+      let cell_a nrm := coef_cell_q QuotCentralRelAbs0 (c * qpow (disp_up QuotCentralRelAbs0 x d) 2)
+                          (c * qpow (disp_lo QuotCentralRelAbs0 x d) 2) (c * qpow x 2) x d nrm in
+      cell_eqb (cell_t true) (Some 0) = true /\ cell_eqb (cell_t false) (Some 0) = true
+      /\ cell_eqb (cell_a true) (Some 2) = true /\ cell_eqb (cell_a false) (Some (12 # 1000000000)) = true).
+Proof.
+  exact (conj tol_zero_is_abs0 (conj tol_outside_is_relative (conj coef_cell_tol_secant1
+          (conj coef_cell_tol_even_refuted tol_witness)))).
+Qed.
+Print Assumptions C18_tolerance_zero_test_refuted.
 
 (** ---- the model is left as it was found ----------------------------------------------------- *)
 
